@@ -318,6 +318,9 @@ def run_scenario(g, sc, model=None, rng=None):
             return []
         k = state["k"]
         state["k"] += 1
+        if st.get("mib") is not None:
+            sp = mib_reply(st["mib"], req, sc)
+            return [(0, build_reply(sp, req, sc, keys, model, rng))] if sp is not None else []
         specs = st.get("replies", [])
         if k < len(specs):
             lst = specs[k]
@@ -353,6 +356,46 @@ def run_scenario(g, sc, model=None, rng=None):
     finally:
         agent.close()
     return rec
+
+
+def arcs_lt(a, b):
+    return list(a) < list(b)
+
+
+def mib_reply(cfg, req, sc):
+    """RFC 3416 agent over a finite MIB.  cfg: {"entries": [[arcs, value_tlv_hex], ...] sorted, "cap": n, "pad": k}.
+    GetNext: next entry or end (v1: noSuchName echo; v2c/v3: endOfMibView bound to the requested name).
+    GetBulk (one repeater): up to min(max_rep, cap) successors, then one endOfMibView (+ pad more) when the MIB ends."""
+    p = req.get("pdu")
+    if not p or not p["oids"]:
+        return None
+    o = p["oids"][0]
+    ents = cfg["entries"]
+    after = [e for e in ents if arcs_lt(o, e[0])]
+    if p["type"] == 0xA1:
+        if after:
+            a, vh = after[0]
+            return {"vbs": (ber.varbind(ber.enc_oid(a), bytes.fromhex(vh))).hex()}
+        if sc["version"] == "v1":
+            return {"vbs": ber.varbind(ber.enc_oid(o), b"\x05\x00").hex(), "es": 2, "ei": 1}
+        return {"vbs": ber.varbind(ber.enc_oid(o), b"\x82\x00").hex()}
+    if p["type"] == 0xA5:
+        n = min(max(p["f2"], 0), cfg.get("cap", 1000))
+        succ = after[:n]
+        vbs = b"".join(ber.varbind(ber.enc_oid(a), bytes.fromhex(vh)) for a, vh in succ)
+        if len(succ) < n:
+            last = succ[-1][0] if succ else o
+            extra = 1 + min(cfg.get("pad", 0), n - len(succ) - 1)
+            vbs += b"".join(ber.varbind(ber.enc_oid(last), b"\x82\x00") for _ in range(extra))
+        return {"vbs": vbs.hex()}
+    if p["type"] == 0xA0:
+        d = dict((tuple(a), vh) for a, vh in ents)
+        vbs = b""
+        for q in p["oids"]:
+            vh = d.get(tuple(q))
+            vbs += ber.varbind(ber.enc_oid(q), bytes.fromhex(vh) if vh else b"\x81\x00")
+        return {"vbs": vbs.hex()}
+    return None
 
 
 def summarise(q):
